@@ -32,3 +32,30 @@ Theorem C01_nothing_invented : forall ops t,
   In t (held s ++ inflight s ++ g_acked s ++ dropped s) -> In t (concat (map op_tags ops)).
 Proof. exact nothing_invented. Qed.
 Print Assumptions C01_nothing_invented.
+
+From Verif Require Import ProcInv4 ProcInv7.
+
+(* An accepting collector.  `accepting ops`: every collector answer to a harvest request in the history is a
+   success (OReply / OReplyCat with OOk) and every outcome of a final-flush request is a success.
+   Then nothing is ever given up except by the documented limits: every entry of the given-up set carries one
+   of the reasons capacity / overwritten package list / already reported package (never: not retryable,
+   attempts exhausted, run gone, failed final request). *)
+Theorem C01_accepting_reasons : forall ops,
+  accepting ops -> forall x, In x (g_dropped (fst (run ops))) -> benign (snd x).
+Proof. exact accepting_reasons. Qed.
+Print Assumptions C01_accepting_reasons.
+
+(* ... and after an accepting history that ends with the final flush, every run that was held at the exit and
+   whose application was not past its inactivity time-out has an empty harvest, and every unit it held is
+   acknowledged or was a package already reported for that application.  Together with C01_exactly_once:
+   nothing accepted is lost and nothing is sent twice. *)
+Theorem C01_flush_delivers : forall pre outs r a,
+  accepting (pre ++ [OCleanExit outs]) ->
+  let s := fst (run pre) in
+  p_quit s = false -> lookupN r (p_runs s) = Some a ->
+  inactive (get_obj s (ah_app (get_ah s a))) (p_now s) = false ->
+  let s' := fst (run (pre ++ [OCleanExit outs])) in
+  harvest_tags (ah_h (get_ah s' a)) = [] /\
+  forall t, In t (harvest_tags (ah_h (get_ah s a))) -> In t (g_acked s') \/ In (t, RSeenPkg) (g_dropped s').
+Proof. exact flush_delivers. Qed.
+Print Assumptions C01_flush_delivers.
